@@ -16,6 +16,17 @@ def load():
 
 
 def match(kf, prop, v):
+    """A formula name carrying a '#KFn' suffix was classified BY THE SPECIFICATION as an instance of the
+    recorded finding KFn (the signature predicate lives next to the formula in Props.tla).  It is suppressed
+    only while known_findings.json lists KFn with status "known" for this property."""
+    tagged = [n for n in v.get('names', []) if '#' in n]
+    plain = [n for n in v.get('names', []) if '#' not in n]
+    if tagged and not plain:
+        ids = {n.split('#', 1)[1] for n in tagged}
+        hits = [k for k in kf if k.get('status') == 'known' and k.get('id') in ids and k.get('property') == prop]
+        if len(hits) == len(ids):
+            return hits[0]
+        return None
     for k in kf:
         if k.get('status') != 'known' or k.get('property') != prop:
             continue
